@@ -64,6 +64,9 @@ class IncrementalCell(Cell):
             and self._prev_evaluation_date == other._prev_evaluation_date
         )
 
+    def __hash__(self):
+        return hash((super().__hash__(), self._prev_evaluation_date))
+
     def __lt__(self, other: Cell) -> bool:
         """Required so that lists of cells can be sortable.
         Comparison is based on (period_start, period_end, evaluation_date, prev_evaluation_date) tuple.
